@@ -147,7 +147,9 @@ def case_imu(H, F, chunks, gravity, known_rot, init_mode, rank):
                 start += cl
         finally:
             imumod.so3 = real_so3
-        gval = float(integ.gravity[2].item())        # the value the module actually holds (its float32 default constant, cast)
+        # the REQUESTED gravity as the float32 constant the constructor is documented to store (torch.tensor default dtype), not
+        # whatever the module ended up holding
+        gval = float(torch.tensor([gravity], dtype=torch.float32).item())
         return outs, cov, R0, v0, p0, store, [accs[3 * i:3 * i + 3] for i in range(F)], dts, krots, gval
 
     def replay(model):
